@@ -52,6 +52,11 @@ CLAIMS = {
          "Every generated login is captured byte for byte: the login record's password slot must be empty; a second login with another password of the same length must produce identical traffic outside the ciphertexts located by the independent decoder; distinctive secrets must occur in no written byte and no error text (failing scripts included); the peer decrypts each LONGBINARY with the private key to nonce||secret (account password twice, each remote password, a 32-byte session key) and checks fresh randomness; the plain flow shows the search oracle can see a password.",
          "Crypto randomness is not seed-reproducible (the case stores key and nonce); secrets shorter than 6 bytes or colliding with other fields are only covered by the non-interference and decryption oracles, not by the text search.",
          "DESIGN.md section 3, C09"),
+ "C10": ("exploration",
+         "rapid mutation of valid encodings at field level (every field span replaced by boundary/random values, truncation, insertion, garbage) + exhaustive (data type, length) value table + arbitrary packets and byte streams through the real channel/reader, with native go fuzz targets (value, package, channel) in the thorough tier; oracle = no panic (recovered and classified), no hang (watchdog), allocation proportional to input (TotalAlloc delta)",
+         "Three levels: every data type byte x every length 0..255 into GoValue (exhaustive); package parsers fed with valid encodings in which one field span is replaced, truncated or padded, arbitrary bytes after every token and arbitrary row bytes after formats, parsed the way the channel does on a real PacketQueue; arbitrary packet sequences into Channel.WritePacket and arbitrary byte streams through Conn.ReadFrom (run by the harness under recover) incl. header lengths 0..7 and hostile ENVCHANGE packet sizes, followed by one small send. Any panic, hang or allocation beyond 64 x input + 4 MiB is a violation; FuzzValue/FuzzPackage/FuzzChannel continue coverage-guided in the thorough tier.",
+         "The contract is 'value or error': lenient acceptance of odd lengths is not judged; 32-bit length fields are drawn up to 2^27 so that a disproportionate allocation shows without endangering the sandbox; CPU spin on EOF inside a packet body is bounded by the read timeout and belongs to C14.",
+         "DESIGN.md section 3, C10"),
  "C11": ("exploration",
          "rapid histories of responses with interleaved EED/ENVCHANGE packages x packetisations x hook registrations x consumer modes against one global event log; exhaustive single cuts of a special-package-heavy response",
          "Responses with 0..6 messages and 0..3 environment changes are delivered under every kind of packetisation (special packages get parsed, rolled back and re-parsed) with hooks registered before or between responses; the event log must show every hook called exactly once per non-informational message / member, with equal contents, in arrival and registration order and before later packages reach the consumer; informational messages and environment changes are never delivered; PacketSize() follows the last PACKSIZE member; a failing callback's error matches the callback error and carries the messages that preceded the failure.",
